@@ -33,8 +33,11 @@ func itemGen() *rapid.Generator[gen.Item] {
 		switch rapid.IntRange(0, 19).Draw(t, "special") {
 		case 0:
 			return gen.Item{K: "chan"}
-		case 1, 2, 3:
+		case 1, 2:
 			return gen.S("")
+		case 3:
+			// empty for now, but mutable: a later mutation and Update gives it text
+			return gen.Item{K: "if", M: gen.MString, P: true}
 		case 4:
 			return gen.Item{K: "nil"}
 		}
